@@ -348,7 +348,7 @@ pub fn merge(client: impl Jar, server: impl Jar) -> Result<ParsedJar<ClassRepr, 
 				},
 				content: JarEntryEnum::Other(b"Manifest-Version: 1.0\nMain-Class: net.minecraft.client.Main\n".to_vec()),
 			},
-			name if name.starts_with("META-INF/") && (name.ends_with(".SF") || name.ends_with(".RSA")) => {
+			name if name.starts_with("META-INF/") && (name.ends_with(".SF") || name.ends_with(".RSA") || name.ends_with(".DSA") || name.ends_with(".EC")) => {
 				// remove these from the jar
 				continue;
 			},
